@@ -54,7 +54,7 @@ def _plain(x):
 
 def generate(ctx, focus, max_len, other_fams, what, handles=(1, 2), base=(1, 2), mech="MechIntended", workers=8, simulate=None, depth=None, seed=None, max_mut=1):
     """All histories of length max_len (or simulated ones) as lists of [act, h, args]."""
-    invs = ("Emit",) if not simulate else ()
+    invs = ("Emit",)
     extra_mod = None
     c = gen_cfg(mech, focus, max_len, other_fams, handles, base, invs, max_mut)
     r = ctx.tlc_ok("GridLazyGen", c, what=what, workers=workers, simulate=simulate, depth=depth, seed=seed, timeout=3000)
@@ -196,3 +196,41 @@ def replay_file(path):
         if not last.get("res_ok") or last.get("bad") or last.get("tmpl") or last.get("earlier") or last.get("inputs") or last.get("raised") != last.get("fresh_raised"):
             rc = 1
     return rc
+
+
+# ----------------------------------------------------------------------------- recorder run
+def recorder_run(ctx):
+    """Run the repository's own test suite under the recorder plugin (harness/verif_recorder.py)
+    and have TLC judge what the tests did to their grids.  Returns the records."""
+    import subprocess
+    import sys
+
+    from . import ux as hux
+
+    rec_file = os.path.join(ctx.work, "recorder.ndjson")
+    env = dict(os.environ, UXARRAY_VERIF="1", VERIF_RECORD_FILE=rec_file, PYTHONPATH=os.path.join(hux.VERIF, "harness") + os.pathsep + hux.VERIF, PYTHONDONTWRITEBYTECODE="1")
+    p = subprocess.run(
+        [sys.executable, "-m", "pytest", "-q", "-p", "no:cacheprovider", "-p", "verif_recorder", "--timeout=900", "--continue-on-collection-errors"],
+        cwd=hux.REPO, env=env, capture_output=True, text=True, timeout=3000,
+    )
+    if not os.path.exists(rec_file):
+        raise Machinery("recorder run wrote no records:\n" + (p.stdout + p.stderr)[-1500:])
+    recs = [json.loads(l) for l in open(rec_file)]
+    errs = [r for r in recs if r.get("recorder_error")]
+    if errs:
+        raise Machinery("recorder failed inside %d tests, e.g. %s" % (len(errs), errs[0]))
+    r = ctx.tlc_ok("JudgeRecorder", "INIT Init\nNEXT Next\nINVARIANT Judge\nCHECK_DEADLOCK FALSE\n", what="judge %d recorded tests of the repository's suite" % len(recs), env={"REC_FILE": rec_file}, workers=4, count=False)
+    failed = {}
+    for v in r.prints:
+        if isinstance(v, tuple) and len(v) == 3 and v[0] == "V":
+            failed.setdefault(v[1], set()).add(v[2])
+    if r.out.count('"V"') != sum(len(x) for x in failed.values()):
+        raise Machinery("recorder judge: printed and parsed verdicts differ")
+    m = __import__("re").search(r"(\d+) passed", p.stdout)
+    ctx.note("recorder", {"tests": len(recs), "grids": sum(x["grids"] for x in recs), "variables_compared": sum(x["checked"] for x in recs), "suite_passed": int(m.group(1)) if m else None})
+    ctx.traces += len([x for x in recs if x["grids"]])
+    for i, clauses in sorted(failed.items()):
+        rec = recs[i - 1]
+        for c in sorted(clauses):
+            ctx.violation("recorder|%s|%s" % (c, rec["test"]), c, detail={"bad": rec["bad"], "tmpl": rec["tmpl"]}, sig={"clause": c, "act": "recorder", "test": rec["test"]}, replay={"test": rec["test"]})
+    return recs
